@@ -210,7 +210,11 @@ class BlockParser(Parser[BlockState]):
             last_token["attrs"] = {"level": level}
             return m.end() + 1
 
-        sc = self.compile_sc(["thematic_break", "list"])
+        if state.depth() >= self.max_nested_level:
+            # lists were removed from the rules at the nesting limit
+            sc = self.compile_sc(["thematic_break"])
+        else:
+            sc = self.compile_sc(["thematic_break", "list"])
         m2 = sc.match(state.src, state.cursor)
         if m2:
             return self.parse_method(m2, state)
